@@ -705,6 +705,18 @@ func (f *FuncFacts) Accepts() []*Guard {
 			atoms = []string{"always"}
 		}
 		kind := "accept"
+		if ri.ins != nil && len(ri.ins.Results) > 0 {
+			var vals []string
+			for i, v := range ri.ins.Results {
+				if f.mode == rejErr && i == len(ri.ins.Results)-1 {
+					continue
+				}
+				vals = append(vals, f.c.term(unspill(v, ri.blk)))
+			}
+			if len(vals) > 0 {
+				kind = "accept <- (" + strings.Join(vals, ", ") + ")"
+			}
+		}
 		switch ri.kind {
 		case retForward:
 			kind = "forward " + ri.code
